@@ -434,7 +434,7 @@ def plans(quick):
         return [("rall", dict(big, kinds="MCAllKinds", rels="MCAllRels", thinfrom=3, thinmod=8)),
                 ("rimpl", dict(big, kinds="MCKindsImpl", rels="MCRelsImpl", thinfrom=4, thinmod=8)),
                 ("rfld", dict(big, kinds="MCKindsFld", rels="MCRelsFld", thinfrom=4, thinmod=8)),
-                ("rconv", dict(big, maxedge=2, kinds="MCKindsConv", rels="MCRelsConv", thinfrom=6, thinmod=4))]
+                ("rconv", dict(big, maxedge=2, kinds="MCKindsConv", rels="MCRelsConv", thinfrom=6, thinmod=6))]
     return [("small", dict(maxobj=3, maxedge=2, exkinds="MCAllKindSet", root=False, kinds="MCAllKinds", rels="MCAllRels", thinfrom=99, thinmod=1)),
             ("rall", dict(big, kinds="MCAllKinds", rels="MCAllRels", thinfrom=3, thinmod=3)),
             ("rimpl", dict(big, kinds="MCKindsImpl", rels="MCRelsImpl", thinfrom=4, thinmod=3)),
